@@ -1,0 +1,27 @@
+//go:build verif
+
+package fasthttp
+
+import (
+	"sync/atomic"
+	"time"
+)
+
+// Thin exports for the /verif correspondence harness (property C40).
+
+// VerifLBState returns, for every balanced client in routing order, the wrapped BalancingClient,
+// its penalty counter and its total counter.  It does not trigger the lazy init.
+func VerifLBState(cc *LBClient) (clients []BalancingClient, penalties []uint32, totals []uint64) {
+	cc.mu.RLock()
+	defer cc.mu.RUnlock()
+	for _, c := range cc.cs {
+		clients = append(clients, c.c)
+		penalties = append(penalties, atomic.LoadUint32(&c.penalty))
+		totals = append(totals, atomic.LoadUint64(&c.total))
+	}
+	return clients, penalties, totals
+}
+
+func VerifLBMaxPenalty() int { return maxPenalty }
+
+func VerifLBPenaltyDuration() time.Duration { return penaltyDuration }
